@@ -7,8 +7,11 @@ import (
 	"go/types"
 	"strings"
 
+	"golang.org/x/tools/go/packages"
+
 	"verif/checker/internal/load"
 	"verif/checker/internal/report"
+	"verif/checker/internal/shape"
 )
 
 // fn looks up a function/method and breaks the check when the anchor is gone.
@@ -237,4 +240,124 @@ func recvTypeName(fi *load.FuncInfo) string {
 		return ""
 	}
 	return typeExprName(fi.Decl.Recv.List[0].Type)
+}
+
+// ---------------------------------------------------------------------------
+// Anchors that are not API: unexported functions, methods and fields may be renamed freely, so
+// they are found by what they are, with the pinned name tried first.
+
+// unexportedCallee: the unexported function or method of the module that `from` calls and that
+// satisfies pred (nil: any); the pinned name is preferred when it still exists among them.
+func (c *Ctx) unexportedCallee(from *load.FuncInfo, pinned string, pred func(fi *load.FuncInfo) bool) *load.FuncInfo {
+	if from == nil || from.Decl.Body == nil {
+		return nil
+	}
+	info := from.Pkg.TypesInfo
+	var cands []*load.FuncInfo
+	seen := map[*types.Func]bool{}
+	ast.Inspect(from.Decl.Body, func(n ast.Node) bool {
+		call, ok := n.(*ast.CallExpr)
+		if !ok {
+			return true
+		}
+		fn := callee(info, call)
+		if fn == nil || fn.Exported() || seen[fn.Origin()] {
+			return true
+		}
+		seen[fn.Origin()] = true
+		if dfi := c.P.Decls[fn.Origin()]; dfi != nil && (pred == nil || pred(dfi)) {
+			cands = append(cands, dfi)
+		}
+		return true
+	})
+	for _, d := range cands {
+		if d.Fn.Name() == pinned {
+			return d
+		}
+	}
+	if len(cands) >= 1 {
+		return cands[0]
+	}
+	return nil
+}
+
+// anchorVia: the function pinned under `name`, or - if it was renamed - the unexported callee of
+// the exported entry point that satisfies pred. Breaks the check when neither exists.
+func (c *Ctx) anchorVia(rel, typ, name string, entry *load.FuncInfo, pred func(fi *load.FuncInfo) bool) *load.FuncInfo {
+	var fi *load.FuncInfo
+	if typ == "" {
+		fi = c.P.Func(rel, name)
+	} else {
+		fi = c.P.Method(rel, typ, name)
+	}
+	if fi != nil {
+		return fi
+	}
+	if fi = c.unexportedCallee(entry, name, pred); fi != nil {
+		return fi
+	}
+	c.Run.Break("anchor missing: " + rel + "." + typ + "." + name + " (renamed or removed and not found through its caller; the rule cannot be evaluated)")
+	return nil
+}
+
+// goMethod: the function or method started by the go statement of entry (Backtest.Run -> worker).
+func (c *Ctx) goMethod(entry *load.FuncInfo) *load.FuncInfo {
+	if entry == nil {
+		return nil
+	}
+	info := entry.Pkg.TypesInfo
+	var out *load.FuncInfo
+	ast.Inspect(entry.Decl.Body, func(n ast.Node) bool {
+		g, ok := n.(*ast.GoStmt)
+		if !ok || out != nil {
+			return true
+		}
+		if fn := callee(info, g.Call); fn != nil {
+			out = c.P.Decls[fn.Origin()]
+		}
+		return true
+	})
+	return out
+}
+
+// structFields describes the unexported fields of a struct by type.
+type fieldInfo struct {
+	name string
+	typ  types.Type
+}
+
+func structFieldsOf(pk *packages.Package, typeName string) []fieldInfo {
+	obj := pk.Types.Scope().Lookup(typeName)
+	if obj == nil {
+		return nil
+	}
+	st, ok := obj.Type().Underlying().(*types.Struct)
+	if !ok {
+		return nil
+	}
+	var out []fieldInfo
+	for i := 0; i < st.NumFields(); i++ {
+		out = append(out, fieldInfo{st.Field(i).Name(), st.Field(i).Type()})
+	}
+	return out
+}
+
+// columnStream: the stream a report column draws its values from - the field of the column
+// object that holds a stream (pinned name `values`).
+func columnStream(co *shape.Object) (*shape.Stream, bool) {
+	if co == nil {
+		return nil, false
+	}
+	if s, ok := shape.FieldOf(co, "values").(*shape.Stream); ok {
+		return s, true
+	}
+	var found *shape.Stream
+	n := 0
+	for _, cell := range co.Fields {
+		if s, ok := cell.V.(*shape.Stream); ok {
+			found = s
+			n++
+		}
+	}
+	return found, n == 1
 }
